@@ -42,7 +42,9 @@ Record sreq := mkSreq {
   s_h2 : bool;                         (* request version is HTTP/2 *)
   s_hdr_host : option string;          (* first Host header value that parses as an authority *)
   s_uri_auth : option string;          (* URI authority *)
-  s_tls : option (option string)       (* TLS info present? with the SNI that parses as an authority *)
+  s_tls : option (option string);      (* TLS info present? with the SNI that parses as an authority *)
+  s_premarked : bool                   (* the TLS info arrives with its validated flag already set (stacked
+                                          layers, re-dispatched extensions): it must not decide anything *)
 }.
 
 Inductive sres := Forward (validated : bool) | RejectInvalid | RejectMissing.
@@ -60,6 +62,6 @@ Definition handle (r : sreq) : sres :=
   | Some (Some sni) =>
       match named_host r with
       | Some h => if eq_ci h (auth_host sni) then Forward true else RejectInvalid
-      | None => Forward false
+      | None => Forward (s_premarked r)          (* names no host: passed on untouched *)
       end
   end.
